@@ -110,8 +110,16 @@ func c18Expr(c *fw.Ctx, tree *enode, si int) {
 	}
 	c.Outcome(fmt.Sprintf("vars=%d", len(firstOccurrencesFold(leaves))))
 	// automatic variables with pre-populated defaults
-	for pi, pre := range c18Prepop {
+	// mode 0: the calculator's own default collection filled by SetExpression;
+	// mode 1: automatic variables off, a caller's collection filled through the CreateVariables entry point
+	for pim, pre := range append(append([][][2]interface{}{}, c18Prepop...), c18Prepop...) {
+		pi, viaCreate := pim%len(c18Prepop), pim >= len(c18Prepop)
 		calc := calculator.NewExpressionCalculator()
+		var target variables.IVariableCollection = calc.DefaultVariables()
+		if viaCreate {
+			calc.SetAutoVariables(false)
+			target = variables.NewVariableCollection()
+		}
 		type ent struct {
 			name string
 			v    variables.IVariable
@@ -121,7 +129,7 @@ func c18Expr(c *fw.Ctx, tree *enode, si int) {
 		for _, e := range pre {
 			val := variants.VariantFromInteger(e[1].(int))
 			v := variables.NewVariable(e[0].(string), val)
-			calc.DefaultVariables().Add(v)
+			target.Add(v)
 			before = append(before, ent{e[0].(string), v, val})
 		}
 		var err error
@@ -130,7 +138,16 @@ func c18Expr(c *fw.Ctx, tree *enode, si int) {
 			return
 		}
 		c.Eval(1)
-		dv := calc.DefaultVariables()
+		dv := target
+		if viaCreate {
+			if pv := fw.Try(func() { calc.CreateVariables(target) }); pv != nil {
+				c.Violation("create-variables-panics", "%q: CreateVariables on a caller's collection panics: %s", text, panicShort(pv))
+				continue
+			}
+			if calc.DefaultVariables().Length() != 0 {
+				c.Violation("auto-variables-off-still-creates", "%q: SetAutoVariables(false) + CreateVariables(caller's collection) put %d entries into the default collection", text, calc.DefaultVariables().Length())
+			}
+		}
 		// earlier entries and values untouched, in place
 		for i, b := range before {
 			if dv.Length() <= i || dv.Get(i) != b.v || b.v.Value() != b.val {
@@ -157,6 +174,40 @@ func c18Expr(c *fw.Ctx, tree *enode, si int) {
 		for k := range count {
 			if !want[k] {
 				c.Violation("auto-variables-spurious-entry", "%q with defaults #%d: entry %q is neither a variable of the expression nor pre-existing", text, pi, k)
+			}
+		}
+	}
+	// a function that is missing from an explicitly supplied collection is an error naming it,
+	// even when the calculator's own default table knows a function of that name
+	{
+		calc := calculator.NewExpressionCalculator()
+		if err := calc.SetExpression(text); err == nil {
+			calls := []string{}
+			var walk func(n *enode)
+			walk = func(n *enode) {
+				for _, k := range n.kids {
+					walk(k)
+				}
+				if n.kind == "call" {
+					calls = append(calls, unquoteIdent(n.name))
+				}
+			}
+			walk(tree)
+			if len(calls) > 0 {
+				vars := variables.NewVariableCollection()
+				for _, l := range leaves {
+					if vars.FindByName(l) == nil {
+						vars.Add(variables.NewVariable(l, variants.VariantFromInteger(1)))
+					}
+				}
+				var r *variants.Variant
+				var eerr error
+				pv := fw.Try(func() { r, eerr = calc.EvaluateUsingVariablesAndFunctions(vars, functions.NewFunctionCollection()) })
+				c.Eval(1)
+				ae, _ := eerr.(*cerr.ApplicationError)
+				if pv == nil && (eerr == nil || ae == nil || ae.Code != "FUNC_NOT_FOUND") {
+					c.Violation("missing-function-not-reported", "%q evaluated with an EMPTY function collection: result %s, error %v (FUNC_NOT_FOUND expected; calls %v)", text, variantStr(r), eerr, calls)
+				}
 			}
 		}
 	}
@@ -266,6 +317,38 @@ func c18Template(c *fw.Ctx, seq []int) {
 	}
 	if t.DefaultVariables()["A"] != "keep" {
 		c.Violation("template-auto-variables-disturb-existing", "template %q: pre-existing default A was changed to %q", text, t.DefaultVariables()["A"])
+	}
+	// the CreateVariables entry point on a caller's map, automatic variables off
+	{
+		t3 := mustache.NewMustacheTemplate()
+		t3.SetAutoVariables(false)
+		if err := t3.SetTemplate(text); err == nil {
+			if len(t3.DefaultVariables()) != 0 {
+				c.Violation("template-auto-variables-off-still-creates", "template %q: SetAutoVariables(false) but defaults are %v", text, t3.DefaultVariables())
+			}
+			m := map[string]string{"A": "keep"}
+			if pv := fw.Try(func() { t3.CreateVariables(&m) }); pv != nil {
+				c.Violation("create-variables-panics", "template %q: CreateVariables on a caller's map panics: %s", text, panicShort(pv))
+			} else {
+				cnt := map[string]int{}
+				for k := range m {
+					cnt[strings.ToUpper(k)]++
+				}
+				for k := range want {
+					if cnt[k] != 1 {
+						c.Violation("template-auto-variables-entry-count", "template %q: CreateVariables(caller's map {A:keep}) leaves %d entries for %q; map %v", text, cnt[k], k, m)
+					}
+				}
+				for k := range cnt {
+					if !want[k] {
+						c.Violation("template-auto-variables-spurious-entry", "template %q: CreateVariables added %q, which is not a variable of the template", text, k)
+					}
+				}
+				if m["A"] != "keep" {
+					c.Violation("template-auto-variables-disturb-existing", "template %q: CreateVariables changed the caller's entry A to %q", text, m["A"])
+				}
+			}
+		}
 	}
 	// pre-existing entries with EMPTY values, and the same template set again on the same instance
 	// in another letter case: still exactly one entry per name
@@ -482,8 +565,8 @@ func init() {
 	fw.Register(&fw.Check{
 		ID:    "C18",
 		Level: "model_checking",
-		Rule: "(a) expression trees with identifiers from {a, A, b, \"a b\", Max, \"Max\", if} in every syntactic position (operand, call argument, call name, index, next to equal string constants), 4 printing styles: VariableNames() vs the variable leaves in order of first occurrence; automatic variables with three pre-populations of the default collection; automatic variables off => VAR_NOT_FOUND/FUNC_NOT_FOUND naming the identifier; " +
-			"(b) every sequence of <=3 (thorough 4) template pieces (all section spellings, text containing the words if/unless): MustacheParser.VariableNames() and default-variable creation; (c) every history up to the depth bound over 13 operations on VariableCollection and FunctionCollection against an ordered-list model (first match wins, case-insensitive); non-trivial = >=2 variables / histories of >=2 steps",
+		Rule: "(a) expression trees with identifiers from {a, A, b, \"a b\", Max, \"Max\", if} in every syntactic position (operand, call argument, call name, index, next to equal string constants), 4 printing styles: VariableNames() vs the variable leaves in order of first occurrence; automatic variables with three pre-populations of the default collection, and the same through the CreateVariables entry point on a caller's collection with automatic variables off; automatic variables off => VAR_NOT_FOUND/FUNC_NOT_FOUND naming the identifier; every call expression with an explicit empty function collection => FUNC_NOT_FOUND; " +
+			"(b) every sequence of <=3 (thorough 4) template pieces (all section spellings, text containing the words if/unless): MustacheParser.VariableNames(), default-variable creation and CreateVariables on a caller's map; (c) every history up to the depth bound over 13 operations on VariableCollection and FunctionCollection against an ordered-list model (first match wins, case-insensitive); non-trivial = >=2 variables / histories of >=2 steps",
 		Assume: []string{"names differing only in letter case may be merged or reported separately", "Remove(i) with i out of range is not exercised"},
 		Spaces: func(tier string) []fw.Space {
 			trees := c18Trees()
